@@ -305,6 +305,35 @@ func c18Ops() []c18Op {
 			_, derr2 := ike.DecodeDecrypt(b[:len(b)-3], nil, sa, message.Role_Responder)
 			return fmt.Sprintf("%s | same text after hold=%v | truncated refused=%v", first, first == again, derr2 != nil)
 		}},
+		{"encode-refused/hold/encode", func(t *tctx) string {
+			// a message whose second / third payload cannot be encoded (a TS payload without selectors, a Notify whose
+			// SPI is too long): the refusal concerns this message only
+			var ps message.IKEPayloadContainer
+			ps.BuildNonce(univ.Pat(24+t.k, t.k))
+			if t.k%2 == 0 {
+				ps.BuildTrafficSelectorInitiator()
+			} else {
+				ps.BuildNotification(3, 16393, univ.Pat(300, t.k), nil)
+			}
+			ps.BuildNonce(univ.Pat(8, t.k+1))
+			lm := message.NewMessage(1, 2, 35, false, true, uint32(t.k), ps)
+			_, err := lm.Encode()
+			t.hold()
+			m := c18Msg(t.k + 2)
+			good, berr := univ.Build(m)
+			if berr != nil {
+				return "build error"
+			}
+			b, e2 := good.Encode()
+			if e2 != nil {
+				return "encode error"
+			}
+			d := new(message.IKEMessage)
+			if derr := d.Decode(b); derr != nil {
+				return fmt.Sprintf("refused=%v then: own encoding does not decode", err != nil)
+			}
+			return fmt.Sprintf("refused=%v then %s", err != nil, univ.Project(d).Canon())
+		}},
 		{"dh-peer-value-not-below-p/hold/again", func(t *tctx) string {
 			// a peer sends a key exchange value that is not below the group prime (p + 5 + k fits the field): whatever
 			// this exchange yields, the group serves the next exchange (this thread's and everybody else's) as before
